@@ -1574,3 +1574,21 @@ package p9p
 //@ requires 0 <= n && n <= len(s)
 //@ ensures blen(namesUpto(s, n)) >= 2 * n
 //@ loop 1 invariant 0 <= i && i <= n && blen(namesUpto(s, i)) >= 2 * i
+
+// ---------------------------------------------------------------- readdir.go: the fixed-list iterator meets the iterator contract
+//
+// dirsEnc(s): the encodings of the entries of s, concatenated (defined by recursion on the list; unfolded where both
+// the list and its tail are named).
+//@ pure dirsEnc(s []Dir) Bytes reads E:p9p.Dir
+//@ axiom [dirlist] dirs_empty: forall s []Dir :: {dirsEnc(s)} len(s) == 0 ==> dirsEnc(s) == bempty
+//@ axiom [dirlist] dirs_step: forall s []Dir, t []Dir :: {dirsEnc(s), dirsEnc(t)} len(s) > 0 && base(t) == base(s) && off(t) == off(s) + 1 && len(t) == len(s) - 1 && cap(t) == cap(s) - 1 ==> dirsEnc(s) == bcat(encDir(at(s, 0)), dirsEnc(t))
+
+// NewFixedReaddir's closure is an iterator in the sense of Readdir.nextfn.call with src := dirsEnc(dirs):
+// it delivers the head entry and keeps the tail, or reports io.EOF exactly when nothing is left; it never fails otherwise.
+//@ func NewFixedReaddir$1
+//@ property C17
+//@ use bytes dirlist
+//@ ensures next: err == nil ==> len(dirs) > 0 && dirsEnc(dirs) == bcat(encDir(result0), dirsEnc(final_dirs)) && result0 == at(dirs, 0)
+//@ ensures eof: err != nil <==> len(dirs) == 0
+//@ ensures eof_is_EOF: err != nil ==> err == io.EOF && final_dirs == dirs
+//@ ensures frame: unchanged("E:p9p.Dir")
